@@ -178,6 +178,28 @@ def r133(repo, ctx):
         problems.add('no path rebuilds the lookup table')
     ctx.check(not problems, 'R13.3', EULER, q, test, f'on all {len(states)} path classes: self.{A} += T - T_last before the test; table rebuilt at the current T <=> self.{A} reset to 0',
               'refresh pairing broken: ' + '; '.join(sorted(problems)), construct=f'_growthRateBinary: accumulate/test/rebuild/reset of self.{A}')
+    # ownership of the reset: wherever else the accumulator is zeroed, the full table rebuild happens on the same path
+    for path_, cls_ in ((EULER, MODEL), (BASE, PBASE)):
+        for qq, ff in repo.functions(path_):
+            if not qq.startswith(cls_ + '.') or qq == q or qq.endswith(('.__init__', '.reset')):
+                continue
+            if not any(isinstance(s_, ast.Assign) and any(U.chain(t_) == ('self', A) for t_ in s_.targets) for s_ in ast.walk(ff)):
+                continue
+            g2 = C.build(ff)
+
+            def tr2(node, st, label):
+                st = set(st)
+                a = node.ast
+                if node.kind == 'stmt' and isinstance(a, ast.Assign) and any(U.chain(t_) == ('self', A) for t_ in a.targets):
+                    st.add('reset')
+                if node.kind == 'stmt' and any(U.call_name(c_) == 'self._createLookupBinary' for c_ in U.calls(a)):
+                    st.add('build')
+                return frozenset(st)
+            at2, ex2 = C.collect(g2, frozenset(), tr2)
+            bad = [s_ for v_ in ex2.values() for s_ in v_ if 'reset' in s_ and 'build' not in s_]
+            ctx.check(not bad, 'R13.3', path_, qq, ff, f'self.{A} is zeroed only on paths that rebuild the whole lookup table',
+                      f'self.{A} is zeroed on a path that does not rebuild the whole lookup table: entries computed at an older temperature stay in use while the drift counter restarts',
+                      construct=f'{qq}: reset of self.{A}')
     # the accumulator is reset with the model
     for path, qq in ((BASE, f'{PBASE}.reset'), (BASE, f'{PBASE}.__init__')):
         ff = repo.func(path, qq)
